@@ -348,6 +348,12 @@ pub open spec fn only_xy(e: SvgElement) -> bool {
 //@ fragment-tail <<<    instance_element\n}>>>
 //@ before <<<            pos.set_position_attrs(&mut instance_element);>>>
 //@ | proof { ax_to_bbox_start_length(pos); }
+//@ | assert(!(instance_element.name@ == "g"@) && num(reuse_element.attrs@, "y"@) is None && num(reuse_element.attrs@, "y1"@) is None && num(reuse_element.attrs@, "y2"@) is None
+//@ |        && num(reuse_element.attrs@, "cy"@) is None && num(reuse_element.attrs@, "dy"@) is None
+//@ |        ==> oval(pos.cy) == num(instance_element.attrs@, "cy"@) && oval(pos.ymax) == num(instance_element.attrs@, "y2"@) && oval(pos.ymin) == num_or(instance_element.attrs@, "y1"@, "y"@)); // an axis the reuse does not position keeps the template's own constraints (they are about to be removed from the element as superseded) @C18.place.unpositioned_axis_keeps_template
+//@ | assert(!(instance_element.name@ == "g"@) && num(reuse_element.attrs@, "x"@) is None && num(reuse_element.attrs@, "x1"@) is None && num(reuse_element.attrs@, "x2"@) is None
+//@ |        && num(reuse_element.attrs@, "cx"@) is None && num(reuse_element.attrs@, "dx"@) is None
+//@ |        ==> oval(pos.cx) == num(instance_element.attrs@, "cx"@) && oval(pos.xmax) == num(instance_element.attrs@, "x2"@) && oval(pos.xmin) == num_or(instance_element.attrs@, "x1"@, "x"@)); // (same for x) @C18.place.unpositioned_axis_keeps_template
 //@ ensures
 //@ - r.name == instance_element.name     @@C18.place.frame
 //@ - no_position(reuse_element) ==> r == instance_element     @@C18.place.no_position_keeps_template
